@@ -63,43 +63,50 @@ func c17r2(p *Program, r *Report) {
 	}
 	g := p.GraphOf(fi)
 	info := g.Info
-	facts := g.GuardFacts()
-	locks := g.Lockset()
 	nset := 0
-	ast.Inspect(fi.Decl.Body, func(n ast.Node) bool {
-		as, ok := n.(*ast.AssignStmt)
-		if !ok {
-			return true
+	// fill and the helpers it was split into
+	for _, u := range p.unitsOf(fi) {
+		ug := p.GraphOf(u)
+		facts := ug.GuardFacts()
+		locks := ug.Lockset()
+		if u.Name == "(*hostConnPool).fillingStopped" {
+			continue
 		}
-		for i, l := range as.Lhs {
-			if !p.isField(info, l, "hostConnPool", "filling") {
-				continue
+		ast.Inspect(u.Decl.Body, func(n ast.Node) bool {
+			as, ok := n.(*ast.AssignStmt)
+			if !ok {
+				return true
 			}
-			nset++
-			root := exprStr(ast.Unparen(l).(*ast.SelectorExpr).X)
-			v, isC := info.Types[as.Rhs[i]]
-			if !isC || v.Value == nil || v.Value.String() != "true" {
-				r.Bad(as, "(*hostConnPool).fill clears filling", "fill may only set filling; it is cleared by fillingStopped")
-				continue
-			}
-			f, _ := facts.Before(as)
-			ls, _ := locks.Before(as)
-			closedV, ck := f.KnownStr(root + ".closed")
-			fillV, fk := f.KnownStr(root + ".filling")
-			r.Check(ls[root+".mu"], as, "(*hostConnPool).fill sets filling under the write lock", "write lock held", "filling is set without the write lock: two fillers can both start")
-			r.Check(ck && !closedV && fk && !fillV, as, "(*hostConnPool).fill sets filling after re-checking closed and filling in the same critical section",
-				"closed and filling known false since the lock was taken", "filling=true is not dominated by a re-check of closed/filling made in the same write-locked section (a second filler, or a fill of a closed pool, can start)")
-			// fill count re-checked too
-			okCount := false
-			for atom, val := range f.m {
-				if strings.Contains(atom, "fillCount") && (strings.HasSuffix(atom, " < 1") && !val || strings.HasPrefix(atom, "0 < ") && val) {
-					okCount = true
+			for i, l := range as.Lhs {
+				if !p.isField(info, l, "hostConnPool", "filling") {
+					continue
 				}
+				nset++
+				root := exprStr(ast.Unparen(l).(*ast.SelectorExpr).X)
+				v, isC := info.Types[as.Rhs[i]]
+				if !isC || v.Value == nil || v.Value.String() != "true" {
+					r.Bad(as, "(*hostConnPool).fill clears filling", "fill may only set filling; it is cleared by fillingStopped")
+					continue
+				}
+				f, _ := facts.Before(as)
+				ls, _ := locks.Before(as)
+				closedV, ck := f.KnownStr(root + ".closed")
+				fillV, fk := f.KnownStr(root + ".filling")
+				r.Check(ls[root+".mu"], as, "(*hostConnPool).fill sets filling under the write lock", "write lock held", "filling is set without the write lock: two fillers can both start")
+				r.Check(ck && !closedV && fk && !fillV, as, "(*hostConnPool).fill sets filling after re-checking closed and filling in the same critical section",
+					"closed and filling known false since the lock was taken", "filling=true is not dominated by a re-check of closed/filling made in the same write-locked section (a second filler, or a fill of a closed pool, can start)")
+				// fill count re-checked too
+				okCount := false
+				for atom, val := range f.m {
+					if strings.Contains(atom, "fillCount") && (strings.HasSuffix(atom, " < 1") && !val || strings.HasPrefix(atom, "0 < ") && val) {
+						okCount = true
+					}
+				}
+				r.Check(okCount, as, "(*hostConnPool).fill sets filling only when connections are missing", "fillCount > 0 known in the same section", "filling starts without a positive fill count computed under the lock: the pool can grow beyond its size")
 			}
-			r.Check(okCount, as, "(*hostConnPool).fill sets filling only when connections are missing", "fillCount > 0 known in the same section", "filling starts without a positive fill count computed under the lock: the pool can grow beyond its size")
-		}
-		return true
-	})
+			return true
+		})
+	}
 	if nset == 0 {
 		r.Unresolved("fill never sets hostConnPool.filling")
 	}
@@ -293,7 +300,16 @@ func c17r3(p *Program, r *Report) {
 			}
 			n++
 			name := fi.Name + " appends to hostConnPool.conns"
-			if !r.Check(fi.Name == "(*hostConnPool).connect", c, name, "the only place that grows a pool", "a pool's connection list is grown outside (*hostConnPool).connect: the size bookkeeping of fill does not cover it") {
+			// connect, or a helper that only connect uses
+			inConnect := fi.Name == "(*hostConnPool).connect"
+			if cf := p.Func("(*hostConnPool).connect"); cf != nil && !inConnect {
+				for _, u := range p.unitsOf(cf) {
+					if u == fi && p.onlyCalledWithin(fi, p.unitsOf(cf)) {
+						inConnect = true
+					}
+				}
+			}
+			if !r.Check(inConnect, c, name, "the only place that grows a pool", "a pool's connection list is grown outside (*hostConnPool).connect: the size bookkeeping of fill does not cover it") {
 				return true
 			}
 			g := p.GraphOf(fi)
@@ -313,23 +329,25 @@ func c17r3(p *Program, r *Report) {
 	if fi := r.NeedFunc("(*hostConnPool).connect"); fi != nil {
 		info := fi.Pkg.TypesInfo
 		found := false
-		ast.Inspect(fi.Decl.Body, func(x ast.Node) bool {
-			ifs, ok := x.(*ast.IfStmt)
-			if !ok || !p.isField(info, ifs.Cond, "hostConnPool", "closed") {
-				return true
-			}
-			found = true
-			closes := false
-			ast.Inspect(ifs.Body, func(m ast.Node) bool {
-				if c, ok := m.(*ast.CallExpr); ok && isCallTo(info, c, "(*Conn).Close", "(*Conn).closeWithError") {
-					closes = true
+		for _, u := range p.unitsOf(fi) {
+			ast.Inspect(u.Decl.Body, func(x ast.Node) bool {
+				ifs, ok := x.(*ast.IfStmt)
+				if !ok || !p.isField(info, ifs.Cond, "hostConnPool", "closed") {
+					return true
 				}
+				found = true
+				closes := false
+				ast.Inspect(ifs.Body, func(m ast.Node) bool {
+					if c, ok := m.(*ast.CallExpr); ok && isCallTo(info, c, "(*Conn).Close", "(*Conn).closeWithError") {
+						closes = true
+					}
+					return true
+				})
+				r.Check(closes && p.terminates(info, ifs.Body.List), ifs, "(*hostConnPool).connect closes a connection that arrives after Close", "late connection closed and not added",
+					"when the pool was closed meanwhile the new connection is not closed (or is still added): a connection outlives its pool")
 				return true
 			})
-			r.Check(closes && p.terminates(info, ifs.Body.List), ifs, "(*hostConnPool).connect closes a connection that arrives after Close", "late connection closed and not added",
-				"when the pool was closed meanwhile the new connection is not closed (or is still added): a connection outlives its pool")
-			return true
-		})
+		}
 		if !found {
 			r.Bad(fi.Decl, "(*hostConnPool).connect checks closed before adding", "connect does not test pool.closed before adding the connection")
 		}
@@ -526,6 +544,27 @@ func c17r5(p *Program, r *Report) {
 		return evs
 	})
 	nset := 0
+	for _, u := range p.unitsOf(fi)[1:] {
+		ug := p.GraphOf(u)
+		ast.Inspect(u.Decl.Body, func(n ast.Node) bool {
+			as, ok := n.(*ast.AssignStmt)
+			if !ok {
+				return true
+			}
+			for _, l := range as.Lhs {
+				if p.isField(info, l, "Session", "isClosing") {
+					nset++
+					f, _ := ug.GuardFacts().Before(as)
+					ls, _ := ug.Lockset().Before(as)
+					root := exprStr(ast.Unparen(l).(*ast.SelectorExpr).X)
+					v, known := f.KnownStr(root + ".isClosing")
+					r.Check(ls[root+".sessionStateMu"] && known && !v, as, "(*Session).Close test-and-set of isClosing", "isClosing tested false and set true in one critical section",
+						"isClosing is set without having been tested false in the same critical section: two overlapping Close calls both run the teardown (the event debouncers' stop() is once-only: send on closed channel)")
+				}
+			}
+			return true
+		})
+	}
 	ast.Inspect(fi.Decl.Body, func(n ast.Node) bool {
 		as, ok := n.(*ast.AssignStmt)
 		if !ok {
